@@ -1,15 +1,111 @@
 """Which analysis components decide which property (DESIGN.md §3)."""
+
+E1_TECH = "static: LLVM -O2 dead-branch elimination of symbolic obligations (compile-time assertion over optimised IR)"
+E1_NOTE = ("Trusted: LLVM 14 mid-end soundness, libstdc++, correctness of the obligation text in /verif/obligations. "
+           "Fixed-rank container kinds only (std::array, utl::array, tuples); dynamic/bounded containers are not covered. "
+           "A behaviour-preserving rewrite LLVM can no longer normalise would be reported (small-step obligations keep this unlikely).")
+E1_RULE = ("E1: one obligation per (clause, container kind, rank, axis/case); non-trivial = the obligation point is reachable in the optimised "
+           "declare-mode IR; distinct by (driver function, obligation id, integer parameters)")
+
 PROPS = {
  "C01": dict(
     level="proof",
-    claim="Proof, for every extent and index at ranks 1..4 (thorough: 1..6) on fixed-rank shape containers, of the stride, offset, indices, ndindex, product and reverse formulas the property states; the bijection/ordering clauses that follow from them by the mixed-radix theorem are not decided.",
-    note="Trusted: LLVM 14 mid-end soundness, libstdc++, correctness of the obligation text; assumes extents>=1; dynamic/bounded containers not covered. A behaviour-preserving rewrite LLVM can no longer normalise would be reported (small-step obligations keep this unlikely).",
-    technique="static: LLVM -O2 dead-branch elimination of symbolic obligations (compile-time assertion over optimised IR)",
-    e1=[dict(tu="c01_index.cpp")],
-    rule="E1: one obligation per (clause, container kind, rank, axis); non-trivial = the obligation point is reachable in the optimised declare-mode IR; distinct by (driver function, obligation id, integer parameters)",
+    claim="Proof, for every extent and index at ranks 1..4 (thorough: 1..6) on fixed-rank shape containers, of the stride, offset, indices, ndindex, product and reverse formulas the property states, and that ndarray_t/hybrid_ndarray address element (i..) at the layout's offset for row- and column-major; the bijection/ordering clauses that follow from them by the mixed-radix theorem are not decided.",
+    note=E1_NOTE + " Assumes extents>=1.",
+    technique=E1_TECH,
+    e1=[dict(tu="c01_index.cpp"), dict(tu="c20_ndarray.cpp")],
+    rule=E1_RULE,
     explanation="Stride/offset/indices formulas of the property statement are stated as branch-to-noreturn obligations over fully symbolic shapes and indices and discharged by LLVM -O2 (dead-branch elimination = proof for all values).",
     not_decided="round-trip identity / injectivity / enumeration order (mixed-radix theorem, not dischargeable); dynamic and bounded shape containers",
     assumptions=["extents >= 1 where the property says positive extents", "fixed-rank container kinds (std::array, utl::array, tuple) at the ranks listed in samples"],
+ ),
+ "C02": dict(
+    level="proof",
+    claim="Proof that the source multi-index produced by transpose/moveaxis/swapaxes/tile/repeat(non-repeated axes)/roll indexers lies inside the source shape for every in-shape destination index, and that static_vector never holds more than its capacity (inductive invariant over every mutator); buffer-position bounds for run-time shapes (non-linear) and slice-based views are not decided.",
+    note=E1_NOTE,
+    technique=E1_TECH,
+    e1=[dict(tu="c03_rearrange.cpp"), dict(tu="c04_select.cpp"), dict(tu="c19_utl.cpp")],
+    rule=E1_RULE,
+    explanation="in-shape obligations are stated through the view's own indexer (indexing_t / decorator_t on the path); capacity obligations are an inductive class invariant (assume on entry, prove on exit).",
+    not_decided="offset < buffer length for run-time shapes (non-linear); slice/flip/pad/concatenate/sliding_window views; dynamic buffers; SIMD accesses are under C12",
+    assumptions=["destination index inside the view's shape", "extents >= 1"],
+ ),
+ "C03": dict(
+    level="proof",
+    claim="Proof of NumPy's shape law, source-index law and element law for transpose (default and compile-time axes), moveaxis and swapaxes (compile-time axes incl. negative) at ranks 1..4 for every extent and index; reshape/flatten/squeeze/flip/expand_dims element laws are not decided.",
+    note=E1_NOTE,
+    technique=E1_TECH,
+    e1=[dict(tu="c03_rearrange.cpp")],
+    rule=E1_RULE,
+    explanation="expected shape and source index are written from NumPy's definitions in the driver; the element law is equality of the bits loaded through the view and through the source at the expected index.",
+    not_decided="reshape incl. -1, flatten, expand_dims, atleast_nd element maps (div/mod round trip), squeeze, flip, run-time axes, dynamic shapes",
+    assumptions=["destination index inside the view's shape"],
+ ),
+ "C04": dict(
+    level="proof",
+    claim="Proof of shape law, source-index law and element law for tile (reps of equal and greater length), repeat along an axis (scalar repeats, incl. negative axis) and roll along an axis for EVERY shift magnitude and sign, ranks 1..3, every extent and index; the remaining operations of the property are not decided.",
+    note=E1_NOTE,
+    technique=E1_TECH,
+    e1=[dict(tu="c04_select.cpp")],
+    rule=E1_RULE,
+    explanation="src = dst mod shape (tile), src_axis = dst_axis / r (repeat), src_axis = (dst_axis - shift) mod extent (roll), written from the NumPy definitions.",
+    not_decided="take, compress, concatenate/stack family, split, sliding_window, diagonal, tril/triu, where, generators, pad, resize, expand, per-element repeats, repeat/roll without axis",
+    assumptions=["extents >= 1", "extents and |shift| below 2^30 for roll (int arithmetic)", "repeats >= 1"],
+ ),
+ "C06": dict(
+    level="proof",
+    claim="Proof that pairwise broadcast_shape is sound and complete w.r.t. NumPy's rule (value exactly when all right-aligned pairs are equal-or-1, then the per-axis maximum) for all rank pairs up to 3x3 (thorough 4x4) and every extent - hence order independent -, idempotent, None-neutral, and that the variadic form is the left fold of the pairwise rule; element law of broadcast_to and associativity are not decided.",
+    note=E1_NOTE,
+    technique=E1_TECH,
+    e1=[dict(tu="c06_broadcast.cpp")],
+    rule=E1_RULE,
+    explanation="soundness and completeness are stated per first incompatible aligned axis (nested case split with the call inside each case).",
+    not_decided="broadcast_to/broadcast_arrays element law, associativity beyond the fold structure, dynamic/clipped containers",
+    assumptions=[],
+ ),
+ "C15": dict(
+    level="proof",
+    claim="Proof of the value/Nothing boundary of broadcast_shape (all rank pairs up to 3x3) and of moveaxis with in-range versus out-of-range compile-time axes; other argument checks are not decided by this engine.",
+    note=E1_NOTE,
+    technique=E1_TECH,
+    e1=[dict(tu="c06_broadcast.cpp"), dict(tu="c03_rearrange.cpp")],
+    rule=E1_RULE,
+    explanation="value exactly when NumPy accepts, Nothing exactly when NumPy raises, for the listed operations.",
+    not_decided="pad/tile/repeat argument validity, dynamic ranks, propagation through pipelines",
+    assumptions=[],
+ ),
+ "C18": dict(
+    level="proof",
+    claim="Proof that isequal on fixed-length index arrays is exactly the conjunction of element equalities (both argument orders), that index arrays of different run-time length and ndarrays of different dimension or shape compare false (isequal and isclose), the optional/either/scalar/tuple case tables, and isclose on scalars = |a-b|<eps; element-wise comparison of equal-shape run-time ndarrays is not decided.",
+    note=E1_NOTE,
+    technique=E1_TECH,
+    e1=[dict(tu="c18_isequal.cpp")],
+    rule=E1_RULE,
+    explanation="every case of the property's case table is an obligation with the call under test inside the case.",
+    not_decided="element loop over equal-shape ndarrays of run-time size; either with array alternatives; isclose tolerance on arrays",
+    assumptions=["either objects satisfy their representation invariant (tag names an alternative)"],
+ ),
+ "C19": dict(
+    level="proof",
+    claim="Inductive proof, per mutator and per entry size 0..C, that static_vector keeps size<=Capacity, accepts/refuses resize and push_back exactly as specified with all other elements unchanged, copies equal and independent, self-assignment harmless; utl::array, tuple, maybe<int>, either<int,float> construction/copy/assignment tables. History equivalence with std:: and utl::vector ownership are not decided here.",
+    note=E1_NOTE,
+    technique=E1_TECH,
+    e1=[dict(tu="c19_utl.cpp")],
+    rule=E1_RULE,
+    explanation="class invariant assumed on entry and proved on exit of each mutator quantifies over every history.",
+    not_decided="utl::vector allocate/deallocate pairing, either/maybe with non-trivial alternatives (known finding F4c), small_vector, element-wise equality after static_vector assignment",
+    assumptions=["T in {int,double,size_t}, Capacity in {1,3,4,8}"],
+ ),
+ "C20": dict(
+    level="proof",
+    claim="Proof, for ndarray_t with fixed-rank shape over fixed and bounded buffers in row- and column-major layout and for hybrid_ndarray, ranks 1..3 (thorough 4), every request: after an accepted resize shape, strides, offset-functor strides and element count agree with the request; a refused resize (wrong element count, wrong rank, over capacity) leaves shape and buffer length unchanged; default construction establishes the same invariant.",
+    note=E1_NOTE,
+    technique=E1_TECH,
+    e1=[dict(tu="c20_ndarray.cpp")],
+    rule=E1_RULE,
+    explanation="post-state obligations over a fully symbolic array object and request.",
+    not_decided="dynamic-rank kinds, distinct indices -> distinct offsets (non-linear), cast, mutable views (E3, to be added)",
+    assumptions=["bounded buffer satisfies size<=capacity on entry (proved inductively under C19)"],
  ),
 }
 
@@ -20,4 +116,3 @@ NOT_APPLICABLE = [
  dict(property_id="C16", reason="value-level sums over run-time contraction lengths through 5-8 stage view pipelines; nothing structural that is also necessary (DESIGN §3 C16)"),
  dict(property_id="C17", reason="floating-point results of long view pipelines with tolerance; nothing structural that is also necessary (DESIGN §3 C17)"),
 ]
-# properties not yet claimed while the framework is being built are listed as not applicable *for now*
